@@ -352,6 +352,152 @@ var ops = map[string]func([]byte) one{
 // t3only lists the ops that are not (yet) modelled in Lean (none: GeneralizedTime / UTCTime are modelled by lean/ZV/Model/Time.lean).
 var t3only = map[string]bool{}
 
+// ---------- fourth wave: string types, ENUMERATED / OCTET STRING / NULL, cross-codec agreement ----------
+
+func eaStr(name string, dec func([]byte) (string, error), enc func(string) ([]byte, error)) func([]byte) one {
+	return func(c []byte) one {
+		v, err := dec(c)
+		if err != nil {
+			return one{"err", "", false}
+		}
+		viol := ""
+		if v != string(c) {
+			viol = "encoding/asn1 parse" + name + " returned a string different from the content octets of " + hx(c)
+		}
+		re, err := enc(v)
+		if err != nil {
+			// PrintableString: the decoder admits '&' (allowAmpersand), the encoder refuses it (rejectAmpersand) -
+			// an upstream, documented asymmetry; the model carries it (T2) and the theorem excludes it by hypothesis.
+			if name == "PrintableString" && bytes.IndexByte(c, '&') >= 0 {
+				return one{"ok:" + hx([]byte(v)) + ":encerr", viol, true}
+			}
+			return one{"ok:" + hx([]byte(v)) + ":encerr", "encoding/asn1 make" + name + " refuses a string that parse" + name + " accepted: " + hx(c), true}
+		}
+		if viol == "" {
+			viol = canon("encoding/asn1 parse"+name, c, re, "")
+		}
+		return one{"ok:" + hx([]byte(v)) + ":" + hx(re), viol, true}
+	}
+}
+
+func cbEnum(in []byte) one {
+	s := cryptobyte.String(in)
+	var v int
+	if !s.ReadASN1Enum(&v) {
+		return one{"err", "", false}
+	}
+	re, ok := build(func(b *cryptobyte.Builder) { b.AddASN1Enum(int64(v)) })
+	out, viol := cbRes("ReadASN1Enum", in, s, strconv.Itoa(v), re, ok)
+	return one{out, viol, true}
+}
+
+func cbOct(in []byte) one {
+	s := cryptobyte.String(in)
+	var v []byte
+	if !s.ReadASN1Bytes(&v, cbasn1.OCTET_STRING) {
+		return one{"err", "", false}
+	}
+	re, ok := build(func(b *cryptobyte.Builder) { b.AddASN1OctetString(v) })
+	out, viol := cbRes("ReadASN1Bytes(OCTET STRING)", in, s, hx(v), re, ok)
+	return one{out, viol, true}
+}
+
+func cbNull(in []byte) one {
+	s := cryptobyte.String(in)
+	var v cryptobyte.String
+	if !s.ReadASN1(&v, cbasn1.NULL) {
+		return one{"err", "", false}
+	}
+	if len(v) != 0 {
+		return one{fmt.Sprintf("ok:%d:%d:encerr", len(v), len(s)), "", true}
+	}
+	re, ok := build(func(b *cryptobyte.Builder) { b.AddASN1NULL() })
+	out, viol := cbRes("ReadASN1(NULL)", in, s, "0", re, ok)
+	return one{out, viol, true}
+}
+
+// xBoth: the same content through encoding/asn1 and (wrapped in a minimal element) through cryptobyte;
+// T3 = the two codecs agree (accept/reject and value) on the common fragment.
+func xBoth(what string, ea func([]byte) (string, bool), tag byte, cb func(cryptobyte.String) (string, bool), limit func([]byte) bool) func([]byte) one {
+	return func(c []byte) one {
+		e := "err"
+		if v, ok := ea(c); ok {
+			e = "ok:" + v
+		}
+		b := "err"
+		if v, ok := cb(cryptobyte.String(cbEl(tag, c))); ok {
+			b = "ok:" + v
+		}
+		viol := ""
+		if e != b && (limit == nil || limit(c)) {
+			viol = fmt.Sprintf("the two codecs disagree on %s content %s: encoding/asn1 %s, cryptobyte %s", what, hx(c), e, b)
+		}
+		return one{"ea=" + e + " cb=" + b, viol, e != "err" || b != "err"}
+	}
+}
+
+func bitsStr(v asn1.BitString) string { return fmt.Sprintf("%d/%s", v.BitLength, hx(v.Bytes)) }
+func tf(v bool) string {
+	if v {
+		return "t"
+	}
+	return "f"
+}
+
+var xInt = xBoth("INTEGER(int64)", func(c []byte) (string, bool) { v, err := asn1.ZVParseInt64(c); return strconv.FormatInt(v, 10), err == nil }, 2,
+	func(s cryptobyte.String) (string, bool) { var v int64; ok := s.ReadASN1Integer(&v); return strconv.FormatInt(v, 10), ok }, nil)
+var xBig = xBoth("INTEGER(big)", func(c []byte) (string, bool) {
+	v, err := asn1.ZVParseBigInt(c)
+	if err != nil {
+		return "", false
+	}
+	return v.String(), true
+}, 2, func(s cryptobyte.String) (string, bool) { v := new(big.Int); ok := s.ReadASN1Integer(v); return v.String(), ok }, nil)
+var xOID = xBoth("OBJECT IDENTIFIER", func(c []byte) (string, bool) { v, err := asn1.ZVParseObjectIdentifier(c); return oidStr(v), err == nil }, 6,
+	func(s cryptobyte.String) (string, bool) { var v asn1.ObjectIdentifier; ok := s.ReadASN1ObjectIdentifier(&v); return oidStr(v), ok }, nil)
+var xBits = xBoth("BIT STRING", func(c []byte) (string, bool) { v, err := asn1.ZVParseBitString(c); return bitsStr(v), err == nil }, 3,
+	func(s cryptobyte.String) (string, bool) { var v asn1.BitString; ok := s.ReadASN1BitString(&v); return bitsStr(v), ok }, nil)
+var xBool = xBoth("BOOLEAN", func(c []byte) (string, bool) { v, err := asn1.ZVParseBool(c); return tf(v), err == nil }, 1,
+	func(s cryptobyte.String) (string, bool) { var v bool; ok := s.ReadASN1Boolean(&v); return tf(v), ok }, nil)
+
+// xHdr: one header through parseTagAndLength and readASN1. T3 (agreement on the common fragment): whatever
+// cryptobyte accepts, encoding/asn1 parses to the same identifier octet, content length and header length;
+// conversely a low-tag header that encoding/asn1 accepts and whose content is present is accepted by cryptobyte.
+func xHdr(in []byte) one {
+	e, b := "err", "err"
+	class, tag, length, comp, off, err := asn1.ZVParseTagAndLength(in, 0)
+	if err == nil {
+		id := class*64 + tag
+		if comp {
+			id += 32
+		}
+		e = fmt.Sprintf("ok:%d:%d:%d", id, length, off)
+	}
+	s := cryptobyte.String(in)
+	var body cryptobyte.String
+	var t cbasn1.Tag
+	if s.ReadAnyASN1(&body, &t) {
+		b = fmt.Sprintf("ok:%d:%d:%d", int(t), len(body), len(in)-len(s)-len(body))
+	}
+	viol := ""
+	if b != "err" && e != b {
+		viol = fmt.Sprintf("cryptobyte accepts the header of %s as %s but encoding/asn1 says %s", hx(in), b, e)
+	}
+	if b == "err" && err == nil && tag < 31 && off+length <= len(in) {
+		viol = fmt.Sprintf("encoding/asn1 accepts the low-tag header of %s (%s, content present) but cryptobyte rejects it", hx(in), e)
+	}
+	return one{"ea=" + e + " cb=" + b, viol, e != "err" || b != "err"}
+}
+
+func init() {
+	ops["ea-num"] = eaStr("NumericString", asn1.ZVParseNumericString, asn1.ZVMakeNumericString)
+	ops["ea-prt"] = eaStr("PrintableString", asn1.ZVParsePrintableString, asn1.ZVMakePrintableString)
+	ops["ea-ia5"] = eaStr("IA5String", asn1.ZVParseIA5String, asn1.ZVMakeIA5String)
+	ops["ea-t61"] = eaStr("T61String", asn1.ZVParseT61String, func(s string) ([]byte, error) { return []byte(s), nil })
+	ops["cb-enum"], ops["cb-oct"], ops["cb-null"] = cbEnum, cbOct, cbNull
+	ops["x-int"], ops["x-big"], ops["x-oid"], ops["x-bits"], ops["x-bool"], ops["x-hdr"] = xInt, xBig, xOID, xBits, xBool, xHdr
+}
+
 const digestMod = 1000000007
 
 func digest(s string) uint64 {
@@ -923,6 +1069,103 @@ func gen(g *zv.Gen) {
 			el = append(el, ibytes(r, 1+r.Intn(3))...)
 		}
 		emit(g, op, el)
+	}
+	// ---- fourth wave ----
+	// string types: every content of <= 1 byte singly, every 2-byte content in one batch per first-byte class, random longer
+	for _, op := range []string{"ea-num", "ea-prt", "ea-ia5", "ea-t61"} {
+		emit(g, op, nil)
+		allOf(1, func(c []byte) { emit(g, op, c) })
+		for _, p := range []byte{' ', '&', '*', '0', '9', ':', 'A', 'Z', 'a', 'z', 0x7f, 0x80, 0xff, byte(r.U64())} {
+			batch(g, op, []byte{p}, 1)
+		}
+		for i := g.N(150, 1500); i > 0; i-- {
+			n := 2 + r.Intn(30)
+			c := make([]byte, n)
+			for j := range c {
+				c[j] = "0123456789 abcxyzABCXYZ'()+,-./:=?"[r.Intn(34)]
+			}
+			if r.Chance(50) {
+				c[r.Intn(n)] = []byte{'&', '*', '!', '"', '#', '$', '%', ';', '<', '>', '@', '[', '_', '`', '{', 0x7f, 0x80, 0xff, 0x1f, 0x00, byte(r.U64())}[r.Intn(21)]
+			}
+			emit(g, op, c)
+		}
+	}
+	// ENUMERATED / OCTET STRING / NULL elements; cross-codec agreement on the same contents
+	for n := 0; n <= 1; n++ {
+		allOf(n, func(c []byte) {
+			emit(g, "cb-enum", cbEl(0x0a, c))
+			emit(g, "cb-null", cbEl(0x05, c))
+			emit(g, "x-int", c)
+			emit(g, "x-bool", c)
+			emit(g, "x-bits", c)
+			emit(g, "x-oid", c)
+		})
+	}
+	allOf(1, func(p []byte) {
+		batch(g, "cb-enum", []byte{0x0a, 0x02, p[0]}, 1)
+		batch(g, "x-int", p, 1)
+		batch(g, "x-big", p, 1)
+		batch(g, "x-oid", p, 1)
+		batch(g, "x-bits", p, 1)
+		batch(g, "x-hdr", p, 1)
+	})
+	for _, p := range edge {
+		batch(g, "x-oid", []byte{0x2a, p}, 1)
+		batch(g, "x-oid", []byte{p, 0x81}, 1)
+		batch(g, "x-bits", []byte{p & 7, p}, 1)
+		batch(g, "x-int", []byte{p, p}, 1)
+		batch(g, "x-hdr", []byte{0x30, 0x82, p}, 1)
+		batch(g, "x-hdr", []byte{0x04, 0x81}, 1)
+		batch(g, "cb-enum", []byte{0x0a, 0x03, p}, 2)
+	}
+	for _, l := range []string{
+		"c19 x-oid 2a8180808000", "c19 x-oid 2a87ffffff7f", "c19 x-oid 2a8880808000", "c19 x-oid 2a8fffffff7f", "c19 x-oid 2a818080808000", "c19 x-oid 8f8080807f", "c19 x-oid 2a8001",
+		"c19 x-hdr 1f1f00", "c19 x-hdr 0400", "c19 x-hdr 04820080", "c19 x-hdr 0483010000", "c19 x-hdr 048401000000", "c19 x-hdr 048500000000ff", "c19 x-hdr 0484ffffffff", "c19 x-hdr 048480000000", "c19 x-hdr 04847fffffff",
+		"c19 cb-enum 0a0100", "c19 cb-enum 0a020080", "c19 cb-enum 0a020001", "c19 cb-enum 0a087fffffffffffffff", "c19 cb-enum 0a09008000000000000000", "c19 cb-enum 020100", "c19 cb-enum 0a00",
+		"c19 cb-null 0500", "c19 cb-null 050100", "c19 cb-null 058100", "c19 cb-null 0400", "c19 cb-null 0500ff", "c19 cb-null 05", "c19 cb-null 2500",
+		"c19 cb-oct 0400", "c19 cb-oct 040141", "c19 cb-oct 04810141", "c19 cb-oct 2400", "c19 cb-oct 0500",
+		"c19 ea-prt 41264 2", "c19 ea-prt 412a42", "c19 ea-prt 26", "c19 ea-num 3020", "c19 ea-num 2f", "c19 ea-num 3a", "c19 ea-ia5 7f", "c19 ea-ia5 80",
+	} {
+		g.Emit(strings.Replace(l, "41264 2", "412642", 1))
+	}
+	for i := g.N(600, 6000); i > 0; i-- {
+		n := r.Intn(12)
+		c := ibytes(r, n)
+		switch r.Intn(8) {
+		case 0:
+			emit(g, "cb-enum", cbEl(0x0a, c))
+		case 1:
+			el := cbEl(0x04, ibytes(r, []int{0, 1, 127, 128, 255, 256, 300}[r.Intn(7)]))
+			if r.Chance(20) {
+				el = append(el, ibytes(r, 1+r.Intn(3))...)
+			}
+			if r.Chance(10) && len(el) > 2 {
+				el = el[:len(el)-1]
+			}
+			emit(g, "cb-oct", el)
+		case 2:
+			emit(g, "x-int", c)
+		case 3:
+			emit(g, "x-big", ibytes(r, 1+r.Intn(20)))
+		case 4:
+			emit(g, "x-oid", c)
+		case 5:
+			if n > 0 {
+				c[0] &= 7
+				if r.Chance(60) {
+					c[n-1] &^= byte(1<<c[0] - 1)
+				}
+			}
+			emit(g, "x-bits", c)
+		case 6:
+			emit(g, "x-hdr", cbEl([]byte{0x04, 0x30, 0xa0, 0x1e, 0x1f, 0x85}[r.Intn(6)], ibytes(r, []int{0, 1, 127, 128, 255, 256, 70000}[r.Intn(7)])))
+		default:
+			h := ibytes(r, 2+r.Intn(5))
+			if r.Bool() {
+				h[1] = 0x80 | byte(1+r.Intn(5))
+			}
+			emit(g, "x-hdr", append(h, make([]byte, r.Intn(300))...))
+		}
 	}
 }
 
